@@ -189,19 +189,46 @@ func checkC05(p *load.Program, r *kit.Report) {
 	}
 	// (b) request heights
 	{
-		hArg := add.Call.Args[3]
+		hArg := kit.Strip(add.Call.Args[3])
 		bad := ""
-		ph, ok := hArg.(*ssa.Phi)
-		if !ok {
-			bad = "the request height is not carried by the request loop"
-		} else {
-			okInit, okStep := false, false
-			walkL, _ := prepend.Call.Args[1].(*ssa.Phi)
-			// the list ranged over by the request loop
-			var listV ssa.Value
-			if s, _, ok := elemIndex(kit.Strip(add.Call.Args[2])); ok {
-				listV = kit.Provenance(s)
+		walkL, _ := prepend.Call.Args[1].(*ssa.Phi)
+		// the list walked by the request loop and the index of the current element
+		var listV, listIdx ssa.Value
+		if s, ix, ok := elemIndex(kit.Strip(add.Call.Args[2])); ok {
+			listV, listIdx = kit.Provenance(s), kit.Strip(ix)
+		}
+		// first: the height the walk back stopped at, paired with the list it built
+		first := func(e ssa.Value) (bool, string) {
+			e = kit.Provenance(e)
+			if e == ssa.Value(walkH) && (listV == nil || listV == ssa.Value(walkL)) {
+				return true, ""
 			}
+			// a merge of the walk's exits: (height, list) pairs must be (h, hashes) or (h-1, prepend)
+			hp, ok1 := e.(*ssa.Phi)
+			lp, ok2 := listV.(*ssa.Phi)
+			if ok1 && ok2 && hp.Block() == lp.Block() {
+				for i := range hp.Edges {
+					he, le := hp.Edges[i], lp.Edges[i]
+					same := he == ssa.Value(walkH) && le == ssa.Value(walkL)
+					stepped := false
+					if b, ok := he.(*ssa.BinOp); ok && b.Op == token.SUB && b.X == ssa.Value(walkH) && b.Block() == prepend.Block() && le == ssa.Value(prepend) {
+						if k, ok := kit.ConstInt(b.Y); ok && k == 1 {
+							stepped = true
+						}
+					}
+					if !same && !stepped {
+						return false, ""
+					}
+				}
+				return true, ""
+			}
+			return false, "the request height takes an unexpected value: " + describe(e)
+		}
+		ph, isPhi := hArg.(*ssa.Phi)
+		sum, isSum := hArg.(*ssa.BinOp)
+		switch {
+		case isPhi:
+			okInit, okStep := false, false
 			for _, e := range ph.Edges {
 				e = kit.Provenance(e)
 				if b, ok := e.(*ssa.BinOp); ok && b.Op == token.ADD && b.X == ssa.Value(ph) {
@@ -210,31 +237,11 @@ func checkC05(p *load.Program, r *kit.Report) {
 					}
 					continue
 				}
-				switch {
-				case e == ssa.Value(walkH) && (listV == nil || listV == ssa.Value(walkL)):
+				ok, why := first(e)
+				if ok {
 					okInit = true
-				default:
-					// a merge of the walk's exits: (height, list) pairs must be (h, hashes) or (h-1, prepend)
-					hp, ok1 := e.(*ssa.Phi)
-					lp, ok2 := listV.(*ssa.Phi)
-					if ok1 && ok2 && hp.Block() == lp.Block() {
-						okInit = true
-						for i := range hp.Edges {
-							he, le := hp.Edges[i], lp.Edges[i]
-							same := he == ssa.Value(walkH) && le == ssa.Value(walkL)
-							stepped := false
-							if b, ok := he.(*ssa.BinOp); ok && b.Op == token.SUB && b.X == ssa.Value(walkH) && b.Block() == prepend.Block() && le == ssa.Value(prepend) {
-								if k, ok := kit.ConstInt(b.Y); ok && k == 1 {
-									stepped = true
-								}
-							}
-							if !same && !stepped {
-								okInit = false
-							}
-						}
-					} else {
-						bad = "the request height takes an unexpected value: " + describe(e)
-					}
+				} else if why != "" {
+					bad = why
 				}
 			}
 			if !okInit {
@@ -242,6 +249,26 @@ func checkC05(p *load.Program, r *kit.Report) {
 			} else if !okStep {
 				bad = "the request height does not advance by one per block"
 			}
+		case isSum && sum.Op == token.ADD && listIdx != nil && (kit.Strip(sum.X) == listIdx || kit.Strip(sum.Y) == listIdx):
+			// hashes[i] requested at first + i, i counting the elements from 0
+			base := sum.X
+			if kit.Strip(sum.X) == listIdx {
+				base = sum.Y
+			}
+			ok, why := first(base)
+			if !ok {
+				bad = "the first request does not use the height the walk back stopped at"
+				if why != "" {
+					bad = why
+				}
+			}
+			if _, lo, okR := indexCounter(listIdx); !okR || lo != 0 {
+				bad = "the request list is not walked from its first element in steps of one"
+			}
+		default:
+			bad = "the request height is not carried by the request loop"
+		}
+		{
 			// hash argument = current element of the list
 			if _, _, ok := elemIndex(add.Call.Args[2]); !ok {
 				if _, _, ok2 := elemIndex(kit.Strip(add.Call.Args[2])); !ok2 {
@@ -398,4 +425,45 @@ func checkC05(p *load.Program, r *kit.Report) {
 	for fn := range sub.Analysed {
 		r.Fn(fn)
 	}
+}
+
+// indexCounter: idx is a loop counter (or rangeindex+1) advancing by one; returns its phi and the
+// first value used.
+func indexCounter(idx ssa.Value) (*ssa.Phi, int64, bool) {
+	start := int64(0)
+	var ph *ssa.Phi
+	switch x := idx.(type) {
+	case *ssa.Phi:
+		ph = x
+	case *ssa.BinOp:
+		if k, isC := kit.ConstInt(x.Y); isC && x.Op == token.ADD {
+			ph, _ = x.X.(*ssa.Phi)
+			start = k
+		}
+	}
+	if ph == nil {
+		return nil, 0, false
+	}
+	var init *int64
+	for _, e := range ph.Edges {
+		if k, isC := kit.ConstInt(e); isC {
+			if init != nil && *init != k {
+				return nil, 0, false
+			}
+			kk := k
+			init = &kk
+			continue
+		}
+		b, isB := e.(*ssa.BinOp)
+		if !isB || b.Op != token.ADD || b.X != ssa.Value(ph) {
+			return nil, 0, false
+		}
+		if k, isC := kit.ConstInt(b.Y); !isC || k != 1 {
+			return nil, 0, false
+		}
+	}
+	if init == nil {
+		return nil, 0, false
+	}
+	return ph, *init + start, true
 }
